@@ -1,5 +1,348 @@
-use crate::mc::Eng;
+//! C18 — Time and integer quantities: exact integer arithmetic, faithful float conversion.
+use crate::env::*;
+use crate::mc::*;
 use crate::Ctx;
-pub fn run(_ctx: &Ctx) -> Vec<Eng> {
-    vec![]
+use rrtk::*;
+
+fn boundary_alphabet() -> Vec<i64> {
+    let mut v = vec![0i64];
+    for x in [1i64, 2, 3, 7, (1 << 24) - 1, (1 << 24) + 1, 1 << 31, (1 << 53) - 1, (1 << 53) + 1, 1 << 62, 1_000_000_000, 30_000_001_024] {
+        v.push(x);
+        v.push(-x);
+    }
+    v
+}
+
+fn integer_ops(e: &mut Eng) {
+    let al = boundary_alphabet();
+    for &a in &al {
+        for &b in &al {
+            e.executions += 1;
+            e.states += 1;
+            e.checks += 1;
+            if a < 0 || b < 0 {
+                e.nontrivial += 1;
+            }
+            let mut bad: Vec<String> = Vec::new();
+            let mut chk = |name: &str, got: Result<i64, String>, want: Option<i64>| {
+                if let Some(w) = want {
+                    e.transitions += 1;
+                    match got {
+                        Ok(g) if g == w => {}
+                        other => bad.push(format!("{} gave {:?}, i64 arithmetic gives {}", name, other, w)),
+                    }
+                }
+            };
+            let (ta, tb) = (Time(a), Time(b));
+            let (ia, ib) = (DimensionlessInteger(a), DimensionlessInteger(b));
+            chk("Time+Time", guard(|| (ta + tb).0), a.checked_add(b));
+            chk("Time-Time", guard(|| (ta - tb).0), a.checked_sub(b));
+            chk("Time+=Time", guard(|| { let mut x = ta; x += tb; x.0 }), a.checked_add(b));
+            chk("Time-=Time", guard(|| { let mut x = ta; x -= tb; x.0 }), a.checked_sub(b));
+            chk("-Time", guard(|| (-ta).0), a.checked_neg());
+            chk("Time*Int", guard(|| (ta * ib).0), a.checked_mul(b));
+            chk("Time*=Int", guard(|| { let mut x = ta; x *= ib; x.0 }), a.checked_mul(b));
+            chk("Int*Time", guard(|| (ia * tb).0), a.checked_mul(b));
+            if b != 0 {
+                chk("Time/Int", guard(|| (ta / ib).0), a.checked_div(b));
+                chk("Time/=Int", guard(|| { let mut x = ta; x /= ib; x.0 }), a.checked_div(b));
+                chk("Int/Int", guard(|| (ia / ib).0), a.checked_div(b));
+                chk("Int/=Int", guard(|| { let mut x = ia; x /= ib; x.0 }), a.checked_div(b));
+            }
+            chk("Int+Int", guard(|| (ia + ib).0), a.checked_add(b));
+            chk("Int-Int", guard(|| (ia - ib).0), a.checked_sub(b));
+            chk("Int*Int", guard(|| (ia * ib).0), a.checked_mul(b));
+            chk("Int+=Int", guard(|| { let mut x = ia; x += ib; x.0 }), a.checked_add(b));
+            chk("Int-=Int", guard(|| { let mut x = ia; x -= ib; x.0 }), a.checked_sub(b));
+            chk("Int*=Int", guard(|| { let mut x = ia; x *= ib; x.0 }), a.checked_mul(b));
+            chk("-Int", guard(|| (-ia).0), a.checked_neg());
+            drop(chk);
+            for m in bad {
+                let name = m.split(' ').next().unwrap().to_string();
+                e.violation(&format!("integer:{}", name), 1, || format!("operands {} and {}: {}", a, b, m));
+            }
+            e.outcome(h64(&(a, b)));
+        }
+        // identity conversions
+        e.checks += 1;
+        let ok = i64::from(Time::from(a)) == a && i64::from(DimensionlessInteger::from(a)) == a && Time::new(a).0 == a && DimensionlessInteger::new(a).0 == a && Time(a) == Time::from(a);
+        if !ok {
+            e.violation("integer:identity-conversion", 1, || format!("value {}", a));
+        }
+        // ordering is i64 ordering
+        for &b in &al {
+            if (Time(a) < Time(b)) != (a < b) || (DimensionlessInteger(a) < DimensionlessInteger(b)) != (a < b) {
+                e.violation("integer:ordering", 1, || format!("{} vs {}", a, b));
+            }
+        }
+    }
+    e.sample(|| "Time(-7) / DimensionlessInteger(2) = Time(-3) (i64 division truncates toward zero)".to_string());
+}
+
+/// exact check |q - t/1e9| <= 2 ulp(q) in integer arithmetic
+fn time_to_quantity_ok(t: i64, q: f32) -> bool {
+    if !q.is_finite() {
+        return false;
+    }
+    if t == 0 {
+        return q == 0.0;
+    }
+    let bits = q.to_bits();
+    let sign: i128 = if bits >> 31 == 1 { -1 } else { 1 };
+    let ex = ((bits >> 23) & 0xff) as i32;
+    let frac = (bits & 0x7f_ffff) as i128;
+    let (mant, exp) = if ex == 0 { (frac, -149) } else { (frac | 0x80_0000, ex - 150) };
+    // q = sign * mant * 2^exp ; compare mant*1e9*2^exp with t, tolerance 2 * 2^exp * 1e9
+    let lhs = sign * mant * 1_000_000_000i128;
+    let (l, r, tol) = if exp >= 0 {
+        if exp > 40 {
+            return false;
+        }
+        (lhs << exp, t as i128, 2_000_000_000i128 << exp)
+    } else {
+        if -exp > 60 {
+            // |q| < 2^-36: t must be tiny; compare in f64 (exact enough at this scale)
+            return ((q as f64) * 1e9 - t as f64).abs() <= 2.0 * (2.0f64).powi(exp) * 1e9;
+        }
+        (lhs, (t as i128) << (-exp), 2_000_000_000i128)
+    };
+    (l - r).abs() <= tol
+}
+
+fn t2q_value(len: u32, pat: u64, class: u32, neg: bool, pmax: u32) -> i64 {
+    // a value of exactly `len` bits: leading 1, then up to 12 pattern bits, then a low-bit class
+    let mut v: u64 = 1u64 << (len - 1);
+    let rest = len - 1;
+    let pbits = rest.min(pmax);
+    v |= (pat & ((1 << pbits) - 1)) << (rest - pbits);
+    let low = rest - pbits;
+    if low > 0 {
+        let mask = (1u64 << low) - 1;
+        let half = 1u64 << (low - 1);
+        v |= match class {
+            0 => 0,
+            1 => 1,
+            2 => half,
+            3 => (half + 1) & mask,
+            4 => half.wrapping_sub(1) & mask,
+            _ => mask,
+        };
+    }
+    let v = v as i64;
+    if neg {
+        -v
+    } else {
+        v
+    }
+}
+
+fn time_to_quantity(e: &mut Eng, thorough: bool, budget: Budget) {
+    // items: (len 1..=63) x (4096 patterns)
+    let pat_bits: u64 = if thorough { 1 << 16 } else { 1 << 13 };
+    let n = 63 * pat_bits;
+    par(e, n, 4096, budget, |idx, e| {
+        let len = (idx / pat_bits) as u32 + 1;
+        let pat = idx % pat_bits;
+        let mut prev: Option<(i64, f32)> = None;
+        let mut vals: Vec<i64> = Vec::with_capacity(12);
+        for class in 0..6 {
+            for neg in [false, true] {
+                let t = t2q_value(len, pat, class, neg, if thorough { 16 } else { 13 });
+                vals.push(t);
+            }
+        }
+        vals.sort();
+        vals.dedup();
+        for &t in &vals {
+            e.executions += 1;
+            e.transitions += 1;
+            e.checks += 1;
+            let q = Quantity::from(Time(t));
+            if len > 24 {
+                e.nontrivial += 1;
+            }
+            if !time_to_quantity_ok(t, q.value) || (cfg!(feature = "dimcheck") && unit_exps(q.unit) != (0, 1)) {
+                e.violation("time-to-quantity:value", 1, || format!("Quantity::from(Time({})) = {:?} which is not within 2 ulp of {} s", t, q, t as f64 / 1e9));
+            }
+            if let Some((pt, pq)) = prev {
+                if pt < t && pq > q.value {
+                    e.violation("time-to-quantity:monotone", 1, || format!("Time({}) -> {:?} but Time({}) -> {:?}", pt, pq, t, q.value));
+                }
+            }
+            prev = Some((t, q.value));
+            // round trip
+            if let Ok(back) = Time::try_from(q) {
+                let lim = ((t as i128).abs() >> 22) + 1;
+                if ((back.0 as i128) - (t as i128)).abs() > lim {
+                    e.violation("time-round-trip", 1, || format!("Time({}) -> {:?} -> Time({}) differs by more than |t| 2^-22 + 1 ns", t, q.value, back.0));
+                }
+            } else {
+                e.violation("time-round-trip", 1, || format!("Time::try_from(Quantity::from(Time({}))) failed", t));
+            }
+        }
+        e.states += vals.len() as u64;
+        if idx % 4099 == 0 {
+            e.outcome(h64(&vals));
+        }
+        if idx % 50_021 == 0 {
+            e.sample(|| format!("bit length {} pattern {:#x}: values {:?}", len, pat, &vals[..vals.len().min(4)]));
+        }
+    });
+}
+
+/// |result - v*1e9| <= one f32 rounding of the product + 1 ns of truncation
+fn quantity_to_time_ok(v: f32, t: i64) -> bool {
+    let bits = v.to_bits();
+    let sign: i128 = if bits >> 31 == 1 { -1 } else { 1 };
+    let ex = ((bits >> 23) & 0xff) as i32;
+    let frac = (bits & 0x7f_ffff) as i128;
+    let (mant, exp) = if ex == 0 { (frac, -149) } else { (frac | 0x80_0000, ex - 150) };
+    let p = sign * mant * 1_000_000_000i128; // product = p * 2^exp
+    if exp >= 0 {
+        if exp > 40 {
+            return false;
+        }
+        let prod = p << exp;
+        let tol = (prod.abs() >> 24) + 1 + 1;
+        ((t as i128) - prod).abs() <= tol
+    } else {
+        let sh = (-exp) as u32;
+        if sh > 100 {
+            return t == 0;
+        }
+        // compare t*2^sh with p ; tolerance (|p| >> 24) + 2 * 2^sh
+        if sh > 64 {
+            return t == 0; // |v * 1e9| < 2^-10
+        }
+        let lhs = (t as i128) << sh;
+        let tol = (p.abs() >> 24) + (2i128 << sh);
+        (lhs - p).abs() <= tol
+    }
+}
+
+fn quantity_to_time(e: &mut Eng, thorough: bool, budget: Budget) {
+    // all f32 bit patterns below 9e9 in magnitude: 0 ..= bits(9e9) for both signs
+    let top = 9.0e9f32.to_bits() as u64; // positive finite values with bits < top are < 9e9
+    let step: u64 = if thorough { 1 } else { 64 };
+    let n = (top + step - 1) / step;
+    par(e, n, 1 << 14, budget, |i, e| {
+        let b = (i * step) as u32;
+        for neg in [false, true] {
+            let v = f32::from_bits(b | if neg { 1 << 31 } else { 0 });
+            e.executions += 1;
+            e.transitions += 1;
+            e.checks += 1;
+            match Time::try_from(Quantity::new(v, SECOND)) {
+                Ok(t) => {
+                    if !quantity_to_time_ok(v, t.0) {
+                        e.violation("quantity-to-time:value", 1, || format!("Time::try_from({:?} s) = Time({}) which is not value*1e9 = {} within one f32 rounding and 1 ns", v, t.0, v as f64 * 1e9));
+                    }
+                }
+                Err(_) => e.violation("quantity-to-time:rejected-seconds", 1, || format!("Time::try_from({:?} s) failed", v)),
+            }
+        }
+        e.nontrivial += 2;
+        e.states += 2;
+        if i % 4099 == 0 {
+            e.outcome(h64(&b));
+        }
+        if i % 1_000_003 == 0 {
+            e.sample(|| format!("{:?} s", f32::from_bits(b)));
+        }
+    });
+    if !thorough {
+        // power-of-two neighbourhoods in full
+        for ex in 1u32..=160 {
+            for d in -64i64..=64 {
+                let b = ((ex << 23) as i64 + d) as u32;
+                if (b as u64) >= top {
+                    continue;
+                }
+                let v = f32::from_bits(b);
+                e.executions += 1;
+                e.checks += 1;
+                match Time::try_from(Quantity::new(v, SECOND)) {
+                    Ok(t) if quantity_to_time_ok(v, t.0) => {}
+                    other => e.violation("quantity-to-time:value", 1, || format!("Time::try_from({:?} s) = {:?}", v, other)),
+                }
+            }
+        }
+    }
+}
+
+fn other_conversions(e: &mut Eng) {
+    let checked = cfg!(feature = "dimcheck");
+    for m in -3..=3i8 {
+        for s in -3..=3i8 {
+            e.executions += 2;
+            e.states += 1;
+            e.checks += 2;
+            let u = Unit::new(m, s);
+            let tr = Time::try_from(Quantity::new(1.5, u));
+            let want_t = !checked || (m, s) == (0, 1);
+            if tr.is_ok() != want_t || (tr.is_ok() && tr.unwrap().0 != 1_500_000_000) {
+                e.violation("quantity-to-time:unit", 1, || format!("Time::try_from(1.5 with unit exponents ({},{})) = {:?}", m, s, tr));
+            }
+            let ir = DimensionlessInteger::try_from(Quantity::new(-7.9, u));
+            let want_i = !checked || (m, s) == (0, 0);
+            if ir.is_ok() != want_i || (ir.is_ok() && ir.unwrap().0 != -7) {
+                e.violation("quantity-to-integer:unit", 1, || format!("DimensionlessInteger::try_from(-7.9 with unit exponents ({},{})) = {:?}", m, s, ir));
+            }
+            if (m, s) != (0, 1) && (m, s) != (0, 0) {
+                e.nontrivial += 1;
+            }
+        }
+    }
+    for &i in &boundary_alphabet() {
+        e.executions += 1;
+        e.checks += 1;
+        let q = Quantity::from(DimensionlessInteger(i));
+        if q.value.to_bits() != (i as f32).to_bits() || (checked && unit_exps(q.unit) != (0, 0)) {
+            e.violation("integer-to-quantity", 1, || format!("Quantity::from(DimensionlessInteger({})) = {:?}", i, q));
+        }
+        let q2 = Quantity::from(Time(i));
+        if q2.value.to_bits() != (i as f32 / 1_000_000_000.0).to_bits() && !time_to_quantity_ok(i, q2.value) {
+            e.violation("time-to-quantity:value", 1, || format!("Quantity::from(Time({})) = {:?}", i, q2));
+        }
+    }
+    e.sample(|| "Time::try_from(1.5 mm) fails; Time::try_from(1.5 s) = Time(1500000000)".to_string());
+}
+
+pub fn run(ctx: &Ctx) -> Vec<Eng> {
+    let budget = Budget::secs(if ctx.thorough { 2500 } else { 120 });
+    let mut e1 = Eng::new(
+        "c18-integer-arithmetic",
+        "every Time / DimensionlessInteger operator and assign form on all ordered pairs of a boundary alphabet {0, +-1, +-2, +-3, +-7, +-(2^24+-1), +-2^31, +-(2^53+-1), +-2^62, +-1e9, +-30000001024} restricted to pairs that do not overflow: equals i64 arithmetic (division truncates toward zero); from/into i64 identity; ordering; non-trivial = a negative operand",
+        "25 x 25 pairs x 19 operator forms",
+    );
+    integer_ops(&mut e1);
+    let mut e2 = Eng::new(
+        "c18-time-to-quantity",
+        "for every bit length 1..63: every pattern of the leading mantissa bits x 6 low-bit classes (all-zero, ...01, exactly half, half+1, half-1, all-ones) x both signs: |Quantity::from(Time(t)) - t/1e9| <= 2 ulp (exact integer comparison), unit SECOND, monotone on consecutive enumerated values, round trip within |t| 2^-22 + 1 ns; non-trivial = more than 24 significant bits (rounding happens)",
+        if ctx.thorough { "63 x 2^16 patterns x 12" } else { "63 x 2^13 patterns x 12" },
+    );
+    time_to_quantity(&mut e2, ctx.thorough, budget);
+    let mut e3 = Eng::new(
+        "c18-quantity-to-time",
+        if ctx.thorough {
+            "EVERY finite f32 second value below 9e9 in magnitude (both signs): |Time::try_from(v s) - v*1e9| <= one f32 rounding of the product + 1 ns (exact integer comparison)"
+        } else {
+            "every 64th f32 bit pattern below 9e9 in magnitude (both signs) plus +-64 patterns around every power of two: |Time::try_from(v s) - v*1e9| <= one f32 rounding of the product + 1 ns (exact integer comparison)"
+        },
+        "",
+    );
+    quantity_to_time(&mut e3, ctx.thorough, budget);
+    e3.bounds = format!("{} f32 values", e3.executions);
+    let mut e4 = Eng::new(
+        "c18-unit-conversions-and-mixed-operators",
+        "Time/DimensionlessInteger try_from over all 49 grid units (only SECOND resp. DIMENSIONLESS succeed); DimensionlessInteger -> Quantity on the boundary alphabet; every mixed operator of the three implementation tables on the 49 grid units equals the Quantity operator applied to the converted operands (engine shared with C01)",
+        "",
+    );
+    other_conversions(&mut e4);
+    for m in -3..=3 {
+        for s in -3..=3 {
+            crate::c01::mixed_pub(&mut e4, (m, s));
+        }
+    }
+    vec![e1, e2, e3, e4]
 }
